@@ -182,7 +182,26 @@ def run(case):
                         fails.append(f"pieces not in increasing cube order: {ids}")
                 elif ref.size != 0:
                     fails.append("empty sequence but numpy's result is not empty")
-                res["obs"] = {"kind": "seq", "commonAxis": out._common_axis}
+                res["obs"] = {"kind": "seq", "commonAxis": int(out._common_axis) if out._common_axis is not None else None}
+                # the result is a sequence like any other: indexing IT as a cube must again behave like
+                # indexing numpy's result (a derived sequence meets state left by the first step)
+                if pieces and ref.size > 0 and not fails:
+                    try:
+                        cls = [int(x) for x in out.cube_like_shape]
+                        if cls != list(ref.shape):
+                            fails.append(f"cube_like_shape {cls} of the result, numpy's result has shape {list(ref.shape)}")
+                        L2 = ref.shape[nca]
+                        seconds = [slice(1, None) if L2 > 1 else slice(0, None), slice(None, -1) if L2 > 1 else slice(None)]
+                        if ref.ndim > 1:
+                            seconds.append(-1)
+                        it2 = seconds[case["wseed"] % len(seconds)]
+                        idx2 = tuple([slice(None)] * nca + [it2])
+                        out2, ref2 = out.index_as_cube[idx2], ref[idx2]
+                        got2 = out2.data if isinstance(out2, NDCube) else np.concatenate([p.data for p in out2.data], axis=nca)
+                        if got2.shape != ref2.shape or not np.array_equal(got2, ref2):
+                            fails.append(f"second step {idx2} on the result: differs from numpy's second step")
+                    except Exception as e:
+                        fails.append(f"second step on the derived sequence raised {type(e).__name__}: {str(e)[:100]}")
         for p in pieces:
             f = C.world_lockstep(p, cubes, rng, case["fam"].startswith("probe"))
             if f:
